@@ -3,7 +3,7 @@
 # (outside /repo and /verif, removed afterwards) and runs the named checks on it through PYVC_REPO; prints one line per check with its exit code
 # (0 held, 1 violation = a false alarm if the edit is harmless, 2 undecided) and, for a non-zero one, the first obligations / binding failures.
 cd /verif
-f=$1; shift
+f=$(realpath "$1"); shift
 W=$(mktemp -d /tmp/harmrun.XXXXXX)
 git -C /repo archive HEAD | tar -x -C $W
 if ! (cd $W && patch -p1 -s < $f >/dev/null 2>&1); then echo "$f patch-does-not-apply"; rm -rf $W; exit; fi
